@@ -683,12 +683,19 @@ type c14Session struct {
 	dir     string
 	present map[string][]byte // name -> data
 	ids     map[string]desync.ChunkID
+	unc     bool // the upstream local store is uncompressed
 }
 
-func c14NewSession(a vh.Args, rng *vh.Rand) (*c14Session, error) {
-	s := &c14Session{dir: filepath.Join(a.Work, "pstore"), present: map[string][]byte{}, ids: map[string]desync.ChunkID{}}
+func c14NewSession(a vh.Args, rng *vh.Rand) (*c14Session, error) { return c14NewSessionFmt(a, rng, false) }
+
+// the store behind the protocol server keeps its chunks compressed (casync's format) or plain
+func c14NewSessionFmt(a vh.Args, rng *vh.Rand, unc bool) (*c14Session, error) {
+	s := &c14Session{dir: filepath.Join(a.Work, "pstore"), present: map[string][]byte{}, ids: map[string]desync.ChunkID{}, unc: unc}
+	if unc {
+		s.dir = filepath.Join(a.Work, "pstore-u")
+	}
 	os.MkdirAll(s.dir, 0755)
-	ls, err := desync.NewLocalStore(s.dir, desync.StoreOptions{})
+	ls, err := desync.NewLocalStore(s.dir, desync.StoreOptions{Uncompressed: unc})
 	if err != nil {
 		return nil, err
 	}
@@ -706,9 +713,19 @@ func c14NewSession(a vh.Args, rng *vh.Rand) (*c14Session, error) {
 	return s, nil
 }
 
+// extra arguments for `desync pull` so that it opens the store in the right format
+func (s *c14Session) remoteExtra(a vh.Args) string {
+	if !s.unc {
+		return ""
+	}
+	cfg := filepath.Join(a.Work, "pull-uncompressed.json")
+	os.WriteFile(cfg, []byte(fmt.Sprintf(`{"store-options": {%q: {"uncompressed": true}}}`, s.dir)), 0644)
+	return " --config " + cfg
+}
+
 // run the requests on ONE session; results "D:<hex>", "M", "E" per request
 func (s *c14Session) runPipes(reqs []string, failing string) ([]string, error) {
-	ls, err := desync.NewLocalStore(s.dir, desync.StoreOptions{SkipVerify: true})
+	ls, err := desync.NewLocalStore(s.dir, desync.StoreOptions{SkipVerify: true, Uncompressed: s.unc})
 	if err != nil {
 		return nil, err
 	}
@@ -814,7 +831,7 @@ func (s *c14Session) runSSH(a vh.Args, reqs []string) ([]string, error) {
 		id := s.ids[q]
 		ops[i] = c14SSHOp{"get", id.String()}
 	}
-	res, _, err := c14RunSSHChild(a, s.dir, 1, ops, 5*time.Second)
+	res, _, err := c14RunSSHChild(a, s.dir, 1, ops, 5*time.Second, s.remoteExtra(a))
 	return res, err
 }
 
@@ -832,8 +849,9 @@ func c14SessionOne(a vh.Args, o *vh.Oracle, r *vh.Result, s *c14Session, level s
 	if err != nil {
 		return err
 	}
-	c := &c14Case{Part: "session", Level: level, Requests: reqs, FailID: failing, Got: c14Short(strings.Join(got, ","))}
-	r.Count(fmt.Sprintf("session|%s|%s|%s", level, strings.Join(reqs, ","), failing), true)
+	c := &c14Case{Part: "session", Level: level, Requests: reqs, FailID: failing, Got: c14Short(strings.Join(got, ",")), StoreUnc: s.unc}
+	r.Count(fmt.Sprintf("session|%s|%v|%s|%s", level, s.unc, strings.Join(reqs, ","), failing), true)
+	r.Dist(fmt.Sprintf("session-store-uncompressed:%v", s.unc))
 	r.Dist("part:session")
 	r.Dist("session-level:" + level)
 	r.Dist(fmt.Sprintf("session-len:%d", len(reqs)))
@@ -874,14 +892,15 @@ func c14SessionOne(a vh.Args, o *vh.Oracle, r *vh.Result, s *c14Session, level s
 	if o == nil {
 		return nil
 	}
-	var pres, blobs []string
+	// the store as the protocol server reads it: chunk files in the store's own format
+	var pres []string
 	var datas [][]byte
 	for _, n := range []string{"p0", "p1", "p2"} {
 		id := s.ids[n]
-		pres = append(pres, id.String()+":"+vh.Hex(s.present[n]))
-		datas = append(datas, s.present[n], c15Compress(s.present[n]))
+		file, _ := os.ReadFile(c14StoreFile(s.dir, id, s.unc))
+		pres = append(pres, id.String()+":"+vh.Hex(file))
+		datas = append(datas, s.present[n], file)
 	}
-	_ = blobs
 	zt, ct := c15ZTables(datas...)
 	ids := make([]string, len(reqs))
 	for i, q := range reqs {
@@ -893,7 +912,7 @@ func c14SessionOne(a vh.Args, o *vh.Oracle, r *vh.Result, s *c14Session, level s
 		id := s.ids[failing]
 		fl = id.String()
 	}
-	ans, err := o.Call("c14.session", strings.Join(pres, ","), fl, strings.Join(ids, ","), zt, ct)
+	ans, err := o.Call("c14.session2", b01(s.unc), "1", strings.Join(pres, ","), fl, strings.Join(ids, ","), zt, ct)
 	if err != nil {
 		return err
 	}
@@ -941,6 +960,25 @@ func c14Sessions(a vh.Args, o *vh.Oracle, r *vh.Result, rng *vh.Rand) error {
 			return err
 		}
 	}
+	// the same with an upstream store that keeps its chunks uncompressed
+	su, err := c14NewSessionFmt(a, rng, true)
+	if err != nil {
+		return err
+	}
+	useqs := [][]string{{"p0"}, {"p1", "p2"}, {"p0", "m0", "p1"}, {"m0", "p2", "m1", "p0"}}
+	if a.Tier == "thorough" {
+		useqs = seqs
+	}
+	for _, q := range useqs {
+		if err := c14SessionOne(a, o, r, su, "pipe", q, ""); err != nil {
+			return err
+		}
+	}
+	for _, q := range [][]string{{"p0", "p1"}, {"p2", "m0", "p0"}} {
+		if err := c14SessionOne(a, o, r, su, "ssh", q, ""); err != nil {
+			return err
+		}
+	}
 	ssh := [][]string{{"p0", "p1", "p2"}, {"m0"}, {"p0", "m0", "p1"}, {"m0", "m1"}}
 	if a.Tier == "thorough" {
 		ssh = seqs
@@ -963,6 +1001,9 @@ func c14IndexPart(a vh.Args, o *vh.Oracle, r *vh.Result, rng *vh.Rand) error {
 		for n, b := range files {
 			os.WriteFile(filepath.Join(dir, n), b, 0644)
 		}
+		// entries that exist but cannot be opened (ELOOP), and a dangling link (does not exist)
+		os.Symlink("loop.caibx", filepath.Join(dir, "loop.caibx"))
+		os.Symlink("nowhere.caibx", filepath.Join(dir, "dangling.caibx"))
 		is, err := desync.NewLocalIndexStore(dir)
 		if err != nil {
 			return err
@@ -978,10 +1019,11 @@ func c14IndexPart(a vh.Args, o *vh.Oracle, r *vh.Result, rng *vh.Rand) error {
 		newIdx := c15Index(rng, 5)
 		type op struct{ kind, name string }
 		ops := []op{}
-		for _, n := range []string{"a.caibx", "empty.caibx", "big.caidx", "garbage.caibx", "missing.caibx", "sub", ".", "..", "inner.caibx"} {
+		for _, n := range []string{"a.caibx", "empty.caibx", "big.caidx", "garbage.caibx", "missing.caibx", "sub", ".", "..", "inner.caibx",
+			"loop.caibx", "dangling.caibx", strings.Repeat("n", 300) + ".caibx", "nul%00.caibx"} {
 			ops = append(ops, op{"get", n}, op{"head", n})
 		}
-		for _, n := range []string{"new.caibx", "a.caibx", "sub"} {
+		for _, n := range []string{"new.caibx", "a.caibx", "sub", "loop.caibx"} {
 			ops = append(ops, op{"put", n})
 		}
 		for _, p := range ops {
@@ -1004,6 +1046,12 @@ func c14DirModel(dir string) (string, []string) {
 			out = append(out, vh.Hex([]byte(e.Name()))+":D")
 			continue
 		}
+		if _, serr := os.Stat(filepath.Join(dir, e.Name())); serr != nil {
+			if !os.IsNotExist(serr) { // exists but cannot be opened (symlink loop)
+				out = append(out, vh.Hex([]byte(e.Name()))+":E")
+			}
+			continue // a dangling link does not exist
+		}
 		b, _ := os.ReadFile(filepath.Join(dir, e.Name()))
 		out = append(out, vh.Hex([]byte(e.Name()))+":F:"+vh.Hex(b))
 		contents = append(contents, string(b))
@@ -1017,10 +1065,15 @@ func c14DirModel(dir string) (string, []string) {
 
 func c14IndexOne(a vh.Args, o *vh.Oracle, r *vh.Result, c *c14Case, cli *desync.RemoteHTTPIndex, base, dir string, cnt *c14Counter, newIdx []byte) error {
 	preModel, contents := c14DirModel(dir)
-	file := filepath.Join(dir, c.Name)
+	realName, _ := url.PathUnescape(c.Name) // the name as the server sees it (r.URL.Path is decoded)
+	file := filepath.Join(dir, realName)
+	if strings.ContainsRune(realName, 0) {
+		file = dir + "/" + realName
+	}
 	before, berr := os.ReadFile(file)
 	st, serr := os.Stat(file)
 	isFile := serr == nil && st.Mode().IsRegular()
+	unopenable := serr != nil && !os.IsNotExist(serr) // exists / is refused for another reason than "does not exist"
 	atomic.StoreInt64(&cnt.n, 0)
 	var got string
 	switch c.Op {
@@ -1080,6 +1133,8 @@ func c14IndexOne(a vh.Args, o *vh.Oracle, r *vh.Result, c *c14Case, cli *desync.
 			fail("index/get-missing", "a missing index was not reported as NoSuchObject")
 		case serr == nil && got == "missing":
 			fail("index/get-present-missing", "an existing entry was reported missing")
+		case unopenable && got == "missing":
+			fail("index/get-failure-reported-missing", fmt.Sprintf("the index cannot be opened (%v) but the client was told it does not exist (NoSuchObject)", serr))
 		}
 	case "head":
 		switch {
@@ -1089,13 +1144,15 @@ func c14IndexOne(a vh.Args, o *vh.Oracle, r *vh.Result, c *c14Case, cli *desync.
 			fail("index-head/missing", "HEAD on a missing index")
 		case serr == nil && !isFile && got == "true":
 			fail("index-head/directory-name", "HEAD answers 200 for a name that is a directory, not an index")
+		case unopenable && got == "false":
+			fail("index-head/open-failure-reported-missing", fmt.Sprintf("HEAD answers 404 for an entry that exists but cannot be opened (%v)", serr))
 		}
 	case "put":
 		wantStored, _ := c15Recode(newIdx)
 		switch {
 		case !c.Writable && (got == "ok" || !bytes.Equal(before, after)):
 			fail("index/put-readonly", "a read-only index server accepted a write")
-		case c.Writable && c.Name != "sub" && (got != "ok" || !bytes.Equal(after, wantStored)):
+		case c.Writable && c.Name != "sub" && !unopenable && (got != "ok" || !bytes.Equal(after, wantStored)):
 			fail("index/put-lost", "StoreIndex did not store the index")
 		case got == "ok" && !bytes.Equal(after, wantStored):
 			fail("index/put-ok-not-stored", "StoreIndex reported success without storing")
@@ -1121,7 +1178,7 @@ func c14IndexOne(a vh.Args, o *vh.Oracle, r *vh.Result, c *c14Case, cli *desync.
 			}
 		}
 		var ans string
-		ans, err = o.Call("c14.remoteindex", c.Op, "2", "-", b01(c.Writable), vh.Hex([]byte(c.Name)), vh.Hex(newIdx), preModel, strings.Join(tab, ","))
+		ans, err = o.Call("c14.remoteindex", c.Op, "2", "-", b01(c.Writable), vh.Hex([]byte(realName)), vh.Hex(newIdx), preModel, strings.Join(tab, ","))
 		if err == nil {
 			c.Model = c14Short(ans)
 			r.Corr()
@@ -1250,6 +1307,9 @@ func runC14(a vh.Args, o *vh.Oracle, r *vh.Result) error {
 	if err := c14IndexPart(a, o, r, rng.Fork()); err != nil {
 		return err
 	}
+	if err := c14IndexProxy(a, o, r, rng.Fork()); err != nil {
+		return err
+	}
 	if err := c14PutRetries(a, o, r, rng.Fork()); err != nil {
 		return err
 	}
@@ -1268,6 +1328,8 @@ func runC14(a vh.Args, o *vh.Oracle, r *vh.Result) error {
 func c14Replay(a vh.Args, o *vh.Oracle, r *vh.Result, c *c14Case) error {
 	rng := vh.NewRand(a.Seed)
 	switch c.Part {
+	case "index-proxy":
+		return c14IndexProxy(a, o, r, rng)
 	case "putretry":
 		return c14PutRetries(a, o, r, rng)
 	case "overlap":
@@ -1284,7 +1346,7 @@ func c14Replay(a vh.Args, o *vh.Oracle, r *vh.Result, c *c14Case) error {
 		defer srv.ln.Close()
 		return c14ScriptOne(a, o, r, srv, c.Op, c.Budget, c.Script, vh.UnHex(c.DataHex))
 	case "session":
-		s, err := c14NewSession(a, rng)
+		s, err := c14NewSessionFmt(a, rng, c.StoreUnc)
 		if err != nil {
 			return err
 		}
